@@ -8,6 +8,18 @@ props = [json.loads(l) for l in open(os.path.join(V, 'properties.jsonl'))]
 
 # property -> (technique, level text, level note, design ref) ; absent => not yet claimed
 CLAIMS = {
+    'C08': ('Lean 4 theorems: trapezoid rule (linear, non-negative), decay amplitudes = trapezoid of Re(conj(B) S B)/2pi for the three spectrum shapes and the memory-parsimonious loop, slices, trace-tensor completeness identities, infidelity = -tr K/d^2 on both branches of infidelity(), pulse-correlation infidelities sum to the total, total infidelity >= 0 for PSD spectra; regenerated contractions and pins; correspondence; option-matrix search',
+            'Machine-checked proof on executable models of util.integrate, _get_integrand, calculate_decay_amplitudes and infidelity (both branches, as the code is now) that the reported infidelity equals -tr K/d^2 of the cumulant function for every complete orthonormal Hermitian basis, that identifier subsets are slices, that pulse-correlation infidelities sum to the total and that the total is non-negative for PSD spectra; tie: regenerated integrand contractions, pins of the infidelity / decay-amplitude statements, correspondence of integrate and the trace tensor; search enumerates spectrum shapes, grids, options, cache histories and compares with independent numpy evaluations.',
+            'The filter-function input path of _get_integrand, return_smallness and test_convergence are not modelled; option plumbing is validated by search.',
+            'DESIGN.md §3 C08'),
+    'C09': ('Lean 4 theorems: trace tensor entries, the eight generated contractions equal the documented commutator formula (first and second order), the single-qubit shortcut equals the general formula on the Pauli basis (symbolically) and not on other d=2 bases, second-order part antisymmetric, row/column of the identity element vanish, reality; pins; correspondence; search incl. label independence, expm, TP/unital/CP',
+            'Machine-checked proof that both evaluation paths of calculate_cumulant_function implement K = -1/2 sum Gamma tr(C_i[C_k,[C_l,C_j]]) - 1/2 sum Delta tr(C_i[[C_k,C_l],C_j]) (general path for every basis; shortcut exactly for the Pauli basis, which is now what the code selects), with the structural consequences (antisymmetric second order, vanishing identity row/column = trace preservation and unitality of exp K); model executed against the package for both branches; search compares K with explicit commutator evaluation for every pair, checks label independence, ETM = expm(sum K), CP/cCP by Choi eigenvalues.',
+            'Complete positivity of exp K is validated (Choi eigenvalues), not proved; expm is an oracle; the sparse COO path of the trace tensor is validated by search.',
+            'DESIGN.md §3 C09'),
+    'C18': ('Lean 4 theorems (core Lean): frame lemma over all histories for the declared write sets of 72 API calls, and exception safety of the cache machine: every raise point of every operation is a coherent state from which all later results are fresh (also for histories with failures and for several objects); declared write sets compared with fingerprint measurements of the whole API; fault injection compares real abort states with the Lean trace',
+            'Machine-checked proof that (i) if every call writes only the cells its declared write set names (pulse caches, basis caches, fresh results) then no history changes caller arguments, pulse definitions or previously returned arrays, and (ii) every state in which a public cache operation can raise satisfies the cache-coherence invariant, so all subsequent requests are served fresh; the declared table is compared with SHA-256 fingerprints before/after every API call, real exceptions are injected into the numerical routines at their k-th call and the observed abort states must occur in the model trace; random histories with failing calls are compared with fresh pulses.',
+            'Partial by nature: Python aliasing is measured, not proved; asynchronous exceptions (KeyboardInterrupt between two assignments) are outside the exception model (async_window_not_coherent shows the model is sharp).',
+            'DESIGN.md §3 C18'),
     'C03': ('Lean 4 theorems: Hamiltonian bookkeeping of concatenation (errors iff documented, one row per distinct operator, coefficients placed per pulse block, identifier mappings, zero / constant fill) on an abstract model; n-pulse algebra: the from-atomic control matrix with cumulative phases and Liouville propagators equals the from-scratch control matrix of the sequenced pulse for a complete basis (all pulse / segment counts), pulse-correlation filter functions sum to the total, regrouping; correspondence on abstract pulses and on atomic data; option x cache-state search',
             'Machine-checked proof (i) on the discrete model of _concatenate_Hamiltonian run against the real function on abstract pulses, and (ii) on the numerical model (regenerated contractions, cm_entry) that concatenation of any list of pulses reproduces the from-scratch control matrix of the sequenced pulse for complete bases, that pulse-correlation contributions are the from-scratch matrices of the individual pulses in place and sum to the total, and that regrouping does not matter; the decision logic of concatenate (options, cache states, frequencies known or not) is covered by the search, which compares every result with a freshly built sequenced pulse.',
             'The option/cache decision logic of concatenate is validated, not proved; completeness of the basis is a hypothesis (the code now recomputes from scratch for incomplete bases); identifier suffix collisions are an open finding (F26).',
